@@ -23,9 +23,8 @@ SPEC = {
             "each program is run in sequence and in one block from the same initial state; oracle (implementation only): if every operation "
             "succeeds in sequence, the block returns the same per-operation results and the same full snapshot. "
             "distinct_nontrivial = distinct implementation transcripts; 'all_ok_programs' = programs whose sequence run succeeded.",
-    "not_proved": ["that each real operation is a closure over its Transaction only (code fact; campaign) — false for "
-                   "insert_vertex(es)_on_edge, whose is_free test reads committed state (finding D3; the model takes the committed "
-                   "map as an explicit parameter of these kernels, so the theorems apply to every program without them)"],
+    "not_proved": ["that each real operation is a closure over its Transaction only (code fact; campaign, with a separate stream "
+                   "for the vertex-insertion kernels whose freeness test used to read committed state: D3, fixed in /repo cc2bcd4)"],
 }
 
 N_ALLOK = [0]
@@ -258,7 +257,6 @@ def dedupe_k(violations):
 
 
 def matches(known, v):
-    m = known.get("matcher", {})
-    if m.get("signature") == "kernel-is_free-reads-committed-state":
-        return d3_signature(v)
+    """No finding of C08 is open here: D3 is repaired (/repo cc2bcd4: the vertex-insertion kernels test their spare darts
+    through the transaction), so every divergence between sequence and block is a VIOLATION."""
     return False
